@@ -2,7 +2,7 @@ SPECIFICATION Spec
 CONSTANTS NV = 2
  NR = 1
  CMag = 1
- Kinds = "mixed"
+ Kinds = "mixed2"
  Den = 1
  Named = FALSE
 INVARIANT Emit
